@@ -91,9 +91,11 @@ def run(ctx, replay=None):
         what = "overlapping Subscribes of one monad: the deliveries are not each evaluation's own value exactly once" if e["part"] == "conc" else \
             "two compositions derived from one prefix: one of them does not evaluate to its own composition" if e["part"] == "branch" else \
             "a monad built next to one that was configured with ObserveOn/SubscribeOn did not run its effect and OnNext on the subscribing goroutine before Subscribe returned" if e["part"] == "sibling" else \
+            "a composition derived by FlatMap from a source configured with ObserveOn/SubscribeOn did not run its chain and OnNext on the subscribing goroutine before Subscribe returned" if e["part"] == "inherit" else \
+            "nested or overlapping evaluations of one monad (a monadic loop, an effect evaluating its own monad, two evaluations waiting for each other) did not complete with their values" if e["part"] == "reentrant" else \
             "the first Posts to a fresh Handler came from several goroutines: the effects observed on it did not all run on one goroutine, one at a time" if e["part"] == "fresh" else \
             "a subscription did not keep the handlers it was made under when the monad was reconfigured during its evaluation"
-        ctx.report("%s obOn=%s subOn=%s kind=%s" % (e["part"], e["obOn"], "h2" if e["part"] == "conc" else ("prefix-depth-%d" % e["n"] if e["part"] == "branch" else "ctor-%s-val-%d" % (e["newSub"], e["n"]) if e["part"] == "sibling" else "first-posts-%d maxin=%d" % (e["n"], e["maxin"]) if e["part"] == "fresh" else "h2->" + e["newSub"]), e["kind"]),
+        ctx.report("%s obOn=%s subOn=%s kind=%s" % (e["part"], e["obOn"], "h2" if e["part"] == "conc" else ("prefix-depth-%d" % e["n"] if e["part"] == "branch" else "ctor-%s-val-%d" % (e["newSub"], e["n"]) if e["part"] == "sibling" else "first-posts-%d maxin=%d" % (e["n"], e["maxin"]) if e["part"] == "fresh" else "continuations-%d" % e["n"] if e["part"] == "inherit" else "-" if e["part"] == "reentrant" else "h2->" + e["newSub"]), e["kind"]),
                    "%s: effects %s, deliveries %s" % (what, json.dumps(e["effects"]), json.dumps(e["delivered"])), {"component": "c11-conc", "run": e})
     ctx.cov["cases_generated_by_tlc"] = ncases
     ctx.cov["distinct_nontrivial"] = ncases - nprogs * 2
